@@ -2739,7 +2739,13 @@ func ruleCOD4(c *Ctx) []Ob {
 			switch calleeFullName(ci) {
 			case "encoding/json.Marshal", "encoding/json.MarshalIndent", "(*encoding/json.Encoder).Encode":
 				n++
-				o.add(VIOLATED, c.fname(f)+"/document values re-encoded through encoding/json", relPath(c, ci.Pos()), "Convert marshals the document with encoding/json before unmarshalling it into the target: json.Marshal fails on +Inf, -Inf and NaN, so type S struct{F float64} with F = +Inf converts to the document {F: +Inf} but Unmarshal fails with \"json: unsupported value: +Inf\"")
+				// keyed by the entry point and an ordinal, not by the function the call happens to sit in: moving the
+				// one call into a helper is the same construct, a second call is another one
+				ckey := c.fname(conv) + "/document values re-encoded through encoding/json"
+				if n > 1 {
+					ckey += fmt.Sprintf(" #%d", n)
+				}
+				o.add(VIOLATED, ckey, relPath(c, ci.Pos()), "Convert marshals the document with encoding/json before unmarshalling it into the target: json.Marshal fails on +Inf, -Inf and NaN, so type S struct{F float64} with F = +Inf converts to the document {F: +Inf} but Unmarshal fails with \"json: unsupported value: +Inf\"")
 			}
 		})
 	}
